@@ -191,7 +191,11 @@ func (p *Propagator) beaconsPerInterface(
 // shouldIgnore indicates whether a beacon should not be sent on the egress
 // interface because it creates a loop.
 func (p *Propagator) shouldIgnore(bseg beacon.Beacon, intf *ifstate.Interface) bool {
-	if err := beacon.FilterLoop(bseg, intf.TopoInfo().IA, p.AllowIsdLoop); err != nil {
+	// The beacon is extended with an entry of the local AS before it is sent
+	// to the neighbor. The loop check must take the local AS into account.
+	extended := beacon.Beacon{Segment: bseg.Segment.ShallowCopy(), InIfID: bseg.InIfID}
+	extended.Segment.ASEntries = append(extended.Segment.ASEntries, seg.ASEntry{Local: p.IA})
+	if err := beacon.FilterLoop(extended, intf.TopoInfo().IA, p.AllowIsdLoop); err != nil {
 		return true
 	}
 	return false
